@@ -6,7 +6,10 @@ PAYLOADS = ['foo', '', ' indented', '- dash', '-- a/file', '++ b/file',
             'tab\there', '#.change:', '#...diff: length=3', 'x' * 40,
             'é', '日本', 'form\x0cfeed', 'v\x0bt', 'fs\x1cgs\x1drs\x1e',
             'nel\x85x', 'ls\u2028ps\u2029', 'bare\rcr', '- sql comment',
-            '+ plus space', '-- ', '++ ']
+            '+ plus space', '-- ', '++ ',
+            # lines that with their -/+ prefix spell something else: a mail
+            # signature separator ("-- "), a bare "--" / "++", a lone blank
+            '- ', '-', '+', '+ ', ' ', '- ']
 GARBAGE = ['diff --git a/x b/x', 'index 123..456 100644', '--- a/x', '+++ b/x',
            'Binary files differ', '', 'some text', '-removed outside hunk',
            '+added outside hunk', '@@ broken header', 'Index: x',
